@@ -44,12 +44,19 @@ type c13Item struct {
 type c13Case struct {
 	kind                 string
 	me, user, host, real string
+	// registration: the nick the 001 greets the client under, does its text end in nick!user@host
+	greet  string
+	mask   bool
+	hasReg bool
 	nicks, chans         []string
 	items                []c13Item
 }
 
 func (c *c13Case) fields() Fields {
 	f := F(c.kind, c.me, c.user, c.host, c.real, len(c.nicks), c.nicks, len(c.chans), c.chans)
+	if c.hasReg {
+		f = append(f, F("RG", c.greet, c.mask)...)
+	}
 	for _, it := range c.items {
 		f = append(f, []byte(it.op))
 		if it.op == "MO" {
@@ -98,6 +105,11 @@ func c13Parse(in Fields) (*c13Case, bool) {
 	}
 	if c.chans, ok = take(); !ok {
 		return nil, false
+	}
+	c.greet, c.mask = c.me, true
+	if p+3 <= len(in) && in.S(p) == "RG" {
+		c.greet, c.mask, c.hasReg = in.S(p+1), in.S(p+2) == "t", true
+		p += 3
 	}
 	for p < len(in) {
 		op := in.S(p)
@@ -623,15 +635,21 @@ func c13Exec(in Fields) Fields {
 			}
 		}
 	}
-	// registration: welcome the client under its nick, telling it its user@host (h_001)
-	if !send([]string{fmt.Sprintf(":%s 001 %s :Welcome to the network %s!%s@%s", c13Srv, c.me, c.me, c.user, c.host)}) {
+	// registration through the real 001 path (h_001): the server greets the client under c.greet
+	// (which may differ from the configured nick: NICKLEN truncation, forced nick) and tells it
+	// its user@host iff c.mask
+	welcome := fmt.Sprintf(":%s 001 %s :Welcome to the network %s", c13Srv, c.greet, c.greet)
+	if c.mask {
+		welcome += "!" + c.user + "@" + c.host
+	}
+	if !send([]string{welcome}) {
 		return F("<<NO-WRITE>>")
 	}
 	if _, ok := sync(); !ok {
 		return F("<<NO-PONG>>")
 	}
 	st := conn.StateTracker()
-	nt := c13NewNet(c.me, c.user, c.host, c.real)
+	nt := c13NewNet(c.greet, c.user, c.host, c.real)
 	var obs Fields
 	for _, it := range c.items {
 		switch it.op {
@@ -715,6 +733,22 @@ func c13Min(a, b int) int {
 
 var c13NickPool = []string{"al", "bo", "cy", "di", "ed", "fay", "gus", "hal", "al_", "bo2", "Zed", "x1", "[w]"}
 var c13MePool = []string{"vbot", "vbot_", "vb2"}
+
+// nicks a server may greet the client under instead of the configured "vbot"
+var c13GreetPool = []string{"vbo", "vbot_", "Guest7"}
+
+// the registration of a generated case: half of the cases say it explicitly; of those 70% are
+// greeted under another nick than the configured one; with / without the trailing hostmask
+func c13Reg(r *Rand, c *c13Case) {
+	c.greet, c.mask = c.me, true
+	if r.Chance(50) {
+		c.hasReg = true
+		if r.Chance(70) {
+			c.greet = r.Pick(c13GreetPool)
+		}
+		c.mask = r.Bool()
+	}
+}
 var c13ChanPool = []string{"#x", "#y", "#go", "#z-1", "#A"}
 var c13Topics = []string{"", "hi there", "t", ":odd :topic", "a  b   c ", "http://example.org/?q=1#frag"}
 var c13Msgs = []string{"", "bye", "see you later", ":x", " leading", "trailing "}
@@ -949,7 +983,8 @@ func (g *c13Gener) event() {
 
 func c13Sim(r *Rand, nev, nusers, nchans, spare int, drift bool) *c13Case {
 	c := &c13Case{kind: "sim", me: "vbot", user: "vident", host: "client.example", real: "v name"}
-	g := &c13Gener{r: r, nt: c13NewNet(c.me, c.user, c.host, c.real), drift: drift}
+	c13Reg(r, c)
+	g := &c13Gener{r: r, nt: c13NewNet(c.greet, c.user, c.host, c.real), drift: drift}
 	g.nicks = append([]string{}, c13NickPool[:c13Min(len(c13NickPool), nusers+spare)]...)
 	g.chans = append([]string{}, c13ChanPool[:nchans]...)
 	for i := 0; i < nusers; i++ {
@@ -970,7 +1005,7 @@ func c13Sim(r *Rand, nev, nusers, nchans, spare int, drift bool) *c13Case {
 	g.items = append(g.items, c13Item{op: "MK"})
 	c.items = g.items
 	c.nicks = append(append([]string{""}, c13MePool...), g.nicks...)
-	c.nicks = append(c.nicks, "nobody")
+	c.nicks = append(c.nicks, "nobody", "vbo", "Guest7")
 	c.chans = append([]string{""}, g.chans...)
 	return c
 }
@@ -980,12 +1015,13 @@ var c13RobVerbs = []string{"JOIN", "KICK", "MODE", "NICK", "PART", "QUIT", "TOPI
 
 func c13RobCase(r *Rand, nlines int) *c13Case {
 	c := &c13Case{kind: "rob", me: "vbot", user: "vident", host: "client.example", real: "v name"}
+	c13Reg(r, c)
 	names := []string{"vbot", "vbot_", "al", "bo", "cy", "#x", "#y", "@al", "+bo", ""}
-	used := map[string]bool{}
+	used := map[string]bool{c.greet: true}
 	for _, n := range names {
 		used[n] = true
 	}
-	me := "vbot" // the generator's guess of the client's nick (hostile NICK lines may change it)
+	me := c.greet // the generator's guess of the client's nick (hostile NICK lines may change it)
 	N := func() string {
 		if r.Chance(25) {
 			return me
@@ -1128,10 +1164,10 @@ func c13RobCase(r *Rand, nlines int) *c13Case {
 	}
 	// a conformant-looking prologue so that there is state to attack
 	pro := []string{
-		":vbot!vident@client.example JOIN #x",
-		":" + c13Srv + " 353 vbot = #x :@al +bo vbot",
-		":vbot!vident@client.example JOIN #y",
-		":" + c13Srv + " 353 vbot = #y :cy al",
+		":" + me + "!vident@client.example JOIN #x",
+		":" + c13Srv + " 353 " + me + " = #x :@al +bo " + me,
+		":" + me + "!vident@client.example JOIN #y",
+		":" + c13Srv + " 353 " + me + " = #y :cy al",
 	}
 	for _, l := range pro[:r.Intn(len(pro)+1)] {
 		c.items = append(c.items, c13Item{op: "L", a: []string{l}})
